@@ -5,7 +5,7 @@
    `max utility = brute-force optimum, with or without the pruning passes` is NOT proved. *)
 From Coq Require Import ZArith Bool List.
 Import ListNotations.
-From Verif Require Import Model.Val Model.Strl Proofs.StrlP Proofs.StrlP2 Proofs.StrlP3 Proofs.StrlP4 Proofs.StrlP5 Proofs.StrlP6 Proofs.StrlP7.
+From Verif Require Import Model.Val Model.Strl Proofs.StrlP Proofs.StrlP2 Proofs.StrlP3 Proofs.StrlP4 Proofs.StrlP5 Proofs.StrlP6 Proofs.StrlP7 Proofs.StrlP8.
 Open Scope Z_scope.
 
 (* capacity: for every tree whose leaf start times are congruent modulo the granularity, every
@@ -24,6 +24,30 @@ Theorem C20_capacity_refuted :
     usage (populate pt now a e) p tau + alloc_usage e p tau > qty0 pt p.
 Proof. exact capacity_unaligned_refuted. Qed.
 Print Assumptions C20_capacity_refuted.
+
+(* the same for ANY registration of capacity-map keys (slot function) that covers: one key per time,
+   registered by every leaf active at that time *)
+Theorem C20_capacity_any_slots : forall pt now sl e cs a,
+  compile_with pt now sl e = Ok cs -> sat cs a = true -> wf_amounts pt e -> covering sl e ->
+  forall p tau, usage (populate pt now a e) p tau + alloc_usage e p tau <= qty0 pt p.
+Proof. exact capacity_with. Qed.
+Print Assumptions C20_capacity_any_slots.
+
+(* range-based (dynamic) discretisation, CapacityConstraint.cpp:237-319: capacity at every time for every
+   satisfying assignment, when every leaf registers the grid key of every time at which it is active
+   (decidable hypothesis, evaluated on the generated inputs by the check) *)
+Theorem C20_capacity_ranges : forall pt now rs e cs a,
+  compile_dyn pt now rs e = Ok cs -> sat cs a = true -> wf_amounts pt e ->
+  coveringb (dyn_slots rs) (grid_key rs) e = true ->
+  forall p tau, usage (populate pt now a e) p tau + alloc_usage e p tau <= qty0 pt p.
+Proof. exact capacity_dyn. Qed.
+Print Assumptions C20_capacity_ranges.
+
+(* finding F15: an unsatisfiable ordering makes the whole model infeasible *)
+Theorem C20_infeasible_refuted :
+  exists pt now g e cs, compile pt now g e = Ok cs /\ forall a, sat cs a = false.
+Proof. exact infeasible_model_refuted. Qed.
+Print Assumptions C20_infeasible_refuted.
 
 (* every placement read back is the exact image of a Choose leaf whose indicator is 1: same name,
    start, end = start + duration, total amount = requested amount, drawn from available partitions of
